@@ -62,6 +62,11 @@ SPEC = [
         "__internal_handle_request"]),
     ("ledger.version", "HSM2FirmwareVersion", ["__init__", "supports", "__ge__", "__eq__"]),
     ("ledger.pin", "BasePin", ["is_valid"]),
+    ("ledger.signature", "HSM2DongleSignature", ["__init__"]),
+    ("ledger.parameters", "HSM2FirmwareParameters", ["__init__", "from_dongle_format"]),
+    ("admin.utils", None, ["hex_or_decimal_string_to_int"]),
+    ("admin.ledger_utils", None, ["encode_eth_message"]),
+    ("admin.signer_authorization", "SignerVersion", ["__init__", "msg", "get_authorization_msg", "to_dict"]),
 ]
 
 EXC = {"ValueError": "ValueError", "TypeError": "TypeError", "IndexError": "IndexError",
@@ -70,6 +75,7 @@ EXC = {"ValueError": "ValueError", "TypeError": "TypeError", "IndexError": "Inde
 TYPES = {"dict": "TDict", "str": "TStr", "int": "TInt", "list": "TList", "bytes": "TBytes",
          "bool": "TBool", "float": "TFloat"}
 LOGGER_NAMES = {"logger", "_logger", "LOGGER"}
+EXTRA_TYPES = {"op_": "pv -> pv -> pr pv", "int_oracle_": "str -> Z -> option Z"}
 
 
 def coq_string(x):
@@ -186,7 +192,7 @@ class Gen:
         t = FuncTr(self, m, cls, fd, has_self)
         body = t.run()
         params = " ".join("(%s : pv)" % p for p in t.coq_params)
-        extra = "".join(" (%s : pv -> pv -> pr pv)" % p for p in t.extra_params)
+        extra = "".join(" (%s : %s)" % (p, EXTRA_TYPES[p]) for p in t.extra_params)
         text = "Definition %s%s %s : pr pv :=\n%s." % (coqname, extra, params, textwrap.indent(body, "  "))
         self.in_progress.discard(key)
         self.done[key] = coqname
@@ -259,8 +265,11 @@ class FuncTr:
         need(not a.vararg and not a.kwarg and not a.kwonlyargs and not a.posonlyargs, "signature shape", fd)
         self.params = [x.arg for x in a.args]
         self.is_classmethod = any(isinstance(d, ast.Name) and d.id == "classmethod" for d in fd.decorator_list)
-        need(all(isinstance(d, ast.Name) and d.id in ("classmethod", "staticmethod") for d in fd.decorator_list),
-             "decorator", fd)
+        need(all(isinstance(d, ast.Name) and d.id in ("classmethod", "staticmethod", "property")
+                 for d in fd.decorator_list), "decorator", fd)
+        if any(isinstance(d, ast.Name) and d.id == "staticmethod" for d in fd.decorator_list):
+            has_self = self.has_self = False
+        self.local_funcs = {}
         self.selfname = self.params[0] if has_self else None
         self.coq_params = [self.v(p) for p in self.params]
         self.is_init = fd.name == "__init__"
@@ -291,6 +300,11 @@ class FuncTr:
             return ret(self.expr(st.value))
         if isinstance(st, ast.Pass):
             return self.stmts(rest, k, ret)
+        if isinstance(st, ast.FunctionDef):
+            need(not st.args.args and always_returns(st.body) and not contains(st.body, (ast.Return,)),
+                 "nested function that is not a parameterless raising helper", st)
+            self.local_funcs[st.name] = st
+            return self.stmts(rest, k, ret)
         if isinstance(st, ast.Raise):
             return "PRaise %s" % self.exc_of(st)
         if isinstance(st, ast.Expr):
@@ -298,6 +312,9 @@ class FuncTr:
                 return self.stmts(rest, k, ret)
             if isinstance(st.value, ast.Constant):
                 return self.stmts(rest, k, ret)
+            if isinstance(st.value, ast.Call) and isinstance(st.value.func, ast.Name) \
+                    and st.value.func.id in self.local_funcs and not st.value.args:
+                return self.stmts(self.local_funcs[st.value.func.id].body, "PStuck", ret)
             # a call evaluated for its effect: here only calls that raise (e.g. self._error(...))
             return "pbind (%s) (fun _ => %s)" % (self.expr(st.value), self.stmts(rest, k, ret))
         if isinstance(st, ast.If):
@@ -450,6 +467,8 @@ class FuncTr:
             return all(self.safe_arg(x) for x in a.args)
         if isinstance(a, ast.Subscript):
             return self.safe_arg(a.value)
+        if isinstance(a, ast.Call) and isinstance(a.func, ast.Attribute) and a.func.attr in ("hex",) and not a.args:
+            return self.safe_arg(a.func.value)
         return False
 
     def is_opaque_expr(self, e):
@@ -522,7 +541,8 @@ class FuncTr:
             return const_val(-e.operand.value)
         if isinstance(e, ast.BinOp) and isinstance(e.left, ast.Constant) and isinstance(e.right, ast.Constant) \
                 and isinstance(e.left.value, int) and isinstance(e.right.value, int) \
-                and isinstance(e.op, (ast.LShift, ast.Add, ast.Sub, ast.Mult)):
+                and isinstance(e.op, (ast.LShift, ast.Add, ast.Sub, ast.Mult, ast.Pow)) \
+                and abs(e.right.value) < 4096:
             return const_val(eval(compile(ast.Expression(e), "<const>", "eval")))
         if isinstance(e, ast.Name):
             if e.id in TYPES:
@@ -568,14 +588,25 @@ class FuncTr:
             if isinstance(e.slice, ast.Slice):
                 need(e.slice.step is None, "slice step", e)
 
-                def bound(b):
+                def cbound(b):
                     if b is None:
                         return "None"
                     v = self.value_of(b)
-                    need(v is not None and v.startswith("(VInt "), "slice bound not a constant", e)
-                    return "(Some %s)" % v[len("(VInt "):-1]
-                lo, hi = bound(e.slice.lower), bound(e.slice.upper)
-                return self.binds([e.value], lambda n: "py_slice %s %s %s" % (n[0], lo, hi))
+                    if v is not None and v.startswith("(VInt "):
+                        return "(Some %s)" % v[len("(VInt "):-1]
+                    return None
+                lo, hi = cbound(e.slice.lower), cbound(e.slice.upper)
+                if lo is not None and hi is not None:
+                    return self.binds([e.value], lambda n: "py_slice %s %s %s" % (n[0], lo, hi))
+                # bounds computed at run time
+                parts = [e.value] + [b for b in (e.slice.lower, e.slice.upper) if b is not None]
+
+                def mk(n):
+                    it = iter(n[1:])
+                    lo_ = "None" if e.slice.lower is None else "(Some %s)" % next(it)
+                    hi_ = "None" if e.slice.upper is None else "(Some %s)" % next(it)
+                    return "py_slice_v %s %s %s" % (n[0], lo_, hi_)
+                return self.binds(parts, mk)
             self.check_taint(e)
             return self.binds([e.value, e.slice], lambda n: "py_getitem %s %s" % (n[0], n[1]))
         if isinstance(e, ast.List) or isinstance(e, ast.Tuple):
@@ -597,9 +628,47 @@ class FuncTr:
                 special = self.special_attr(e.attr)
                 if special:
                     return special
+                if isinstance(inspect.getattr_static(self.cls, e.attr, None), property):
+                    fn = self.gen.method(self.cls, e.attr)
+                    extra = "".join(" " + x for x in self.pass_extra(fn))
+                    return "%s%s %s" % (fn, extra, self.v(self.selfname))
             return self.binds([e.value], lambda n: "py_getattr %s %s" % (n[0], coq_string(e.attr)))
         if isinstance(e, ast.Call):
             return self.call(e)
+        if isinstance(e, ast.JoinedStr):
+            # an f-string whose text matters (returned / passed on): constant pieces and {value} fields
+            pieces = []
+            for v in e.values:
+                if isinstance(v, ast.Constant):
+                    pieces.append(("c", coq_str_val(v.value)))
+                else:
+                    need(isinstance(v, ast.FormattedValue) and v.conversion == -1 and v.format_spec is None,
+                         "f-string field with conversion / format spec", e)
+                    pieces.append(("v", v.value))
+            fields = [x for kind_, x in pieces if kind_ == "v"]
+
+            def mk(n):
+                it = iter(n)
+                out = "POk (VStr ((%s)%%list))" % " ++ ".join(
+                    x if kind_ == "c" else "@F%d@" % i for i, (kind_, x) in enumerate(pieces))
+                # bind each field's text
+                for i in reversed(range(len(pieces))):
+                    if pieces[i][0] == "v":
+                        pass
+                names = list(n)
+                txt = out
+                wrappers = []
+                j = 0
+                for i, (kind_, x) in enumerate(pieces):
+                    if kind_ == "v":
+                        t = self.fresh()
+                        txt = txt.replace("@F%d@" % i, t)
+                        wrappers.append((names[j], t))
+                        j += 1
+                for val, t in reversed(wrappers):
+                    txt = "pbind (py_fmt_field %s) (fun %s => %s)" % (val, t, txt)
+                return txt
+            return self.binds(fields, mk)
         need(False, "expression %s not in the translated subset" % type(e).__name__, e)
 
     def special_attr(self, attr):
@@ -698,6 +767,16 @@ class FuncTr:
                 return self.binds(e.args, lambda a: "py_chr %s" % a[0])
             if n == "int" and len(e.args) == 1 and not e.keywords:
                 return self.binds(e.args, lambda a: "py_int %s" % a[0])
+            if n == "int" and len(e.args) == 2 and not e.keywords:
+                if "int_oracle_" not in self.extra_params:
+                    self.extra_params.append("int_oracle_")
+                return self.binds(e.args, lambda a: "py_int_base int_oracle_ %s %s" % (a[0], a[1]))
+            if n == "str" and len(e.args) == 1 and not e.keywords:
+                return self.binds(e.args, lambda a: "py_str %s" % a[0])
+            enum_vals = self.enum_values(n)
+            if enum_vals is not None and len(e.args) == 1 and not e.keywords:
+                return self.binds(e.args, lambda a: "py_enum_of [%s] %s" % (
+                    "; ".join("(%d)%%Z" % v for v in enum_vals), a[0]))
             if n in ("all", "any") and len(e.args) == 1:
                 return self.quantifier(n, e.args[0], e)
             if n == "list" and len(e.args) == 1 and isinstance(e.args[0], ast.Call) \
@@ -711,7 +790,8 @@ class FuncTr:
                 fn = self.gen.function(self.m.name, n)
                 args = self.resolve_callee_args(self.m.funcs[n], e, False)
                 self.note_call(fn, args)
-                return self.binds(args, lambda a: "%s %s" % (fn, " ".join(a)))
+                ex = "".join(" " + x for x in self.pass_extra(fn))
+                return self.binds(args, lambda a: "%s%s %s" % (fn, ex, " ".join(a)))
             if n in self.m.imports:
                 mod2, name2 = self.m.imports[n]
                 m2 = module(mod2)
@@ -719,7 +799,8 @@ class FuncTr:
                     fn = self.gen.function(mod2, name2)
                     args = self.resolve_callee_args(m2.funcs[name2], e, False)
                     self.note_call(fn, args)
-                    return self.binds(args, lambda a: "%s %s" % (fn, " ".join(a)))
+                    ex = "".join(" " + x for x in self.pass_extra(fn))
+                    return self.binds(args, lambda a: "%s%s %s" % (fn, ex, " ".join(a)))
                 if name2 in m2.classes:
                     return self.construct(getattr(m2.mod, name2), e)
             if n in self.m.classes:
@@ -744,6 +825,18 @@ class FuncTr:
             if isinstance(f.value, ast.Name) and f.value.id == "str" and f.attr == "isdecimal" and len(e.args) == 1:
                 return self.binds(e.args, lambda a: "py_isdecimal %s" % a[0])
             # methods on values
+            if f.attr == "hex" and not e.args and not e.keywords:
+                return self.binds([f.value], lambda a: "py_hex %s" % a[0])
+            if f.attr == "encode" and len(e.args) == 1 and isinstance(e.args[0], ast.Constant) \
+                    and e.args[0].value == "ascii":
+                return self.binds([f.value], lambda a: "py_encode_ascii %s" % a[0])
+            if isinstance(f.value, ast.Name) and f.value.id == "int" and f.attr == "from_bytes" and len(e.args) == 1:
+                kw = {k_.arg: k_.value for k_ in e.keywords}
+                need(set(kw) <= {"byteorder", "signed"} and isinstance(kw.get("byteorder"), ast.Constant)
+                     and kw["byteorder"].value == "big"
+                     and ("signed" not in kw or (isinstance(kw["signed"], ast.Constant) and kw["signed"].value is False)),
+                     "int.from_bytes options", e)
+                return self.binds(e.args, lambda a: "py_from_bytes_be %s" % a[0])
             if f.attr == "startswith" and len(e.args) == 1:
                 return self.binds([f.value, e.args[0]], lambda a: "py_startswith %s %s" % (a[0], a[1]))
             if f.attr == "split" and len(e.args) == 1:
@@ -768,6 +861,15 @@ class FuncTr:
                 return self.binds([f.slice, e.args[0]], lambda a: "op_ %s %s" % (a[0], a[1]))
         need(False, "call shape", e)
 
+    def enum_values(self, name):
+        import enum
+        obj = getattr(self.m.mod, name, None)
+        if isinstance(obj, type) and issubclass(obj, enum.Enum):
+            vals = [m_.value for m_ in obj]
+            need(all(isinstance(v, int) for v in vals), "enum %s with non-int values" % name)
+            return vals
+        return None
+
     def pass_extra(self, fn):
         ex = getattr(self.gen, "extra", {}).get(fn, [])
         for p in ex:
@@ -780,7 +882,8 @@ class FuncTr:
         need("__init__" in meths, "constructor of %s" % cls.__name__, e)
         fn = self.gen.method(cls, "__init__")
         args = self.resolve_callee_args(meths["__init__"][1], e, True)
-        return self.binds(args, lambda a: '%s (VObj "%s" []) %s' % (fn, cls.__name__, " ".join(a)))
+        ex = "".join(" " + x for x in self.pass_extra(fn))
+        return self.binds(args, lambda a: '%s%s (VObj "%s" []) %s' % (fn, ex, cls.__name__, " ".join(a)))
 
     def callable_text(self, fx, e):
         """A one-argument callable used with map(): a class of the repository or a lambda."""
